@@ -272,26 +272,32 @@ func (s *muxerStream) hasContent() bool {
 	return len(s.segments) >= 1
 }
 
-func (s *muxerStream) hasPart(segmentID uint64, partID uint64) bool {
-	if segmentID == s.nextSegmentID {
-		if partID < uint64(len(s.nextSegment.(*muxerSegmentFMP4).parts)) {
-			return true
-		}
-	} else {
+func (s *muxerStream) hasPart(segmentID uint64, partID uint64, partProvided bool) bool {
+	// without _HLS_part, the request is satisfied by the complete segment only.
+	if !partProvided {
+		return segmentID < s.nextSegmentID
+	}
+
+	for segmentID < s.nextSegmentID {
 		for _, sop := range s.segments {
 			if seg, ok := sop.(*muxerSegmentFMP4); ok && segmentID == seg.id {
-				// If the Client requests a Part Index greater than that of the final
-				// Partial Segment of the Parent Segment, the Server MUST treat the
-				// request as one for Part Index 0 of the following Parent Segment.
-				if partID >= uint64(len(seg.parts)) {
-					segmentID++
-					partID = 0
-					continue
+				if partID < uint64(len(seg.parts)) {
+					return true
 				}
-
-				return true
+				break
 			}
 		}
+
+		// If the Client requests a Part Index greater than that of the final
+		// Partial Segment of the Parent Segment, the Server MUST treat the
+		// request as one for Part Index 0 of the following Parent Segment.
+		// (gaps have no parts, therefore they are treated in the same way).
+		segmentID++
+		partID = 0
+	}
+
+	if segmentID == s.nextSegmentID {
+		return partID < uint64(len(s.nextSegment.(*muxerSegmentFMP4).parts))
 	}
 
 	return false
@@ -336,7 +342,7 @@ func (s *muxerStream) handleMediaPlaylist(w http.ResponseWriter, r *http.Request
 						return nil
 					}
 
-					if s.hasContent() && s.hasPart(msnint, partint) {
+					if s.hasContent() && s.hasPart(msnint, partint, part != "") {
 						break
 					}
 
